@@ -23,6 +23,8 @@ def run(ctx):
     simrules.swap_shortcut_rule(ctx, 'C01.d')
     simrules.controlled_special_case_rule(ctx, 'C01.e')
     simrules.classical_basis_index_rule(ctx, 'C01.f')
+    simrules.merged_state_rule(ctx, 'C01.g')
+    ctx.decided.append('C01.g every merged product state is built from the zero-qubit factor that carries the global phase')
     ctx.decided.append('C01.f every basis[k] in the classical simulator is indexed by a position its qubits map to')
     ctx.decided.append('C01.e code that special-cases controlled gates (the classical simulator, the controlled() shortcuts, nested-control flattening) consults control_values')
     ctx.decided.append('C01.d the product-state SWAP relabelling shortcut is taken only for gates that are exactly SWAP (guard interpreted on probe exponents / shifts)')
